@@ -21,6 +21,8 @@ class Model:
         m.content = dict(self.content)
         m.foreign = copy.deepcopy(self.foreign)
         m.damaged = set(self.damaged)
+        if hasattr(self, "has_index"):
+            m.has_index = self.has_index
         return m
 
     def canon(self):
@@ -222,7 +224,7 @@ def _check_data(bad, name, key, rep, d, want, model):
             {"obs": name, "key": key, "reply": rep})
 
 
-def check_listing(bad, rep, model, cache, srv=None):
+def check_listing(bad, rep, model, cache, srv=None, f7_ok=None):
     if "ok" not in rep:
         bad("list_sync failed: %s" % _short(rep), "list:%s" % classify(rep), {"obs": "list_sync", "reply": rep})
         return
@@ -231,8 +233,8 @@ def check_listing(bad, rep, model, cache, srv=None):
     oks = [entry_of_reply(i["ok"]) for i in items if "ok" in i]
     if errs:
         # F7: a cache without index-v5 lists as one NotFound error
-        if not (len(errs) == 1 and not oks and errs[0]["err"].get("io_kind") == "NotFound" and not os.path.exists(os.path.join(cache, ref.INDEX_DIR))
-                and not model.index):
+        no_index_dir = (not os.path.exists(os.path.join(cache, ref.INDEX_DIR))) if f7_ok is None else f7_ok
+        if not (len(errs) == 1 and not oks and errs[0]["err"].get("io_kind") == "NotFound" and no_index_dir and not model.index):
             bad("list_sync yielded error items: %s" % _short(errs), "list:error-items", {"obs": "list_sync", "reply": rep})
             return
     seen = {}
